@@ -797,24 +797,90 @@ func (sh *shaper) builder(recv ssa.Value, at *ssa.Call) *Shape {
 		}
 	}
 	inLoop := func(b *ssa.BasicBlock) bool { return reachesAvoiding2(b, b) }
-	var pre, loop, post []*Shape
-	var loopBlock *ssa.BasicBlock
+	var pre, post []*Shape
+	loopBlocks := map[*ssa.BasicBlock]bool{}
+	byBlock := map[*ssa.BasicBlock][]*Shape{}
+	seenLoop := false
 	for _, w := range writes {
 		if inLoop(w.b) {
-			if loopBlock != nil && loopBlock != w.b {
-				return unknown("builder written in several blocks of a loop")
-			}
-			loopBlock = w.b
-			loop = append(loop, w.sh)
-		} else if loopBlock == nil {
+			seenLoop = true
+			byBlock[w.b] = append(byBlock[w.b], w.sh)
+		} else if !seenLoop {
 			pre = append(pre, w.sh)
 		} else {
 			post = append(post, w.sh)
 		}
 	}
 	parts := append([]*Shape{}, pre...)
-	if len(loop) > 0 {
-		parts = append(parts, &Shape{K: "rep", Sub: []*Shape{concat(loop...)}})
+	if seenLoop {
+		// the loop the writes sit in: all blocks on a cycle with a writing block; one header (the block
+		// entered from outside)
+		for _, b := range fn.Blocks {
+			if !inLoop(b) {
+				continue
+			}
+			for wb := range byBlock {
+				if b == wb || (reachesAvoiding2(b, wb) && reachesAvoiding2(wb, b)) {
+					loopBlocks[b] = true
+				}
+			}
+		}
+		var header *ssa.BasicBlock
+		for b := range loopBlocks {
+			for _, p := range b.Preds {
+				if !loopBlocks[p] {
+					if header != nil && header != b {
+						return unknown("builder written in a loop with several entries")
+					}
+					header = b
+				}
+			}
+		}
+		if header == nil {
+			return unknown("builder written in a loop whose header was not found")
+		}
+		// what one iteration writes: the writes of the blocks on each path from the header back to it
+		var alts []*Shape
+		npaths := 0
+		bad := ""
+		onPath := map[*ssa.BasicBlock]bool{}
+		var cur []*Shape
+		var dfs func(b *ssa.BasicBlock)
+		dfs = func(b *ssa.BasicBlock) {
+			if bad != "" {
+				return
+			}
+			onPath[b] = true
+			n := len(cur)
+			cur = append(cur, byBlock[b]...)
+			for _, sc := range b.Succs {
+				switch {
+				case sc == header:
+					npaths++
+					if npaths > 256 {
+						bad = "too many paths through the loop that writes the builder"
+						break
+					}
+					alts = append(alts, concat(append([]*Shape{}, cur...)...))
+				case !loopBlocks[sc]:
+					// leaving the loop: nothing may have been written in this (partial) iteration
+					if len(cur) > 0 {
+						bad = "the builder is written in an iteration that then leaves the loop"
+					}
+				case onPath[sc]:
+					bad = "builder written in nested loops"
+				default:
+					dfs(sc)
+				}
+			}
+			cur = cur[:n]
+			onPath[b] = false
+		}
+		dfs(header)
+		if bad != "" {
+			return unknown("%s", bad)
+		}
+		parts = append(parts, &Shape{K: "rep", Sub: []*Shape{alt(alts...)}})
 	}
 	parts = append(parts, post...)
 	return concat(parts...)
